@@ -50,7 +50,7 @@ def mk_exp2(name, T, E, slice_hi=None):
     S = sc(cpp(T), E)
     body = "    return cnl::unwrap(cnl::exp2(cnl::_impl::from_rep<%s>(a)));" % S
     lo, hi = tmin(T), tmax(T)
-    vals = list(range(lo, hi + 1)) if slice_hi is None else [v for v in range(lo, hi + 1) if (v >> 8) == slice_hi]
+    vals = list(range(lo, hi + 1)) if slice_hi is None else list(range(slice_hi << 8, (slice_hi << 8) + 256))
     table = {}
     for a in vals:
         if a * (2.0 ** E) > bits(T) + 2:
@@ -58,6 +58,8 @@ def mk_exp2(name, T, E, slice_hi=None):
         t = exp2_table(a, E)
         if t is not None and t <= hi:
             table[a] = t
+    if not table:
+        return None  # no input of this slice has a representable result
 
     def pre(env):
         a = env.a["a"]
@@ -80,6 +82,28 @@ def mk_exp2(name, T, E, slice_hi=None):
     return Kernel(name, [("a", T)], T, body, mode="bv", W=bits(T) + 12, pre=pre, claims=claims, timeout=120,
                   desc="exp2(%s:%d)%s" % (T, E, "" if slice_hi is None else " slice %d" % slice_hi),
                   tags={"fn": "exp2", "T": T, "E": E, "entries": len(table)})
+
+
+def exp2_slices32(n0, T, E, count, rng):
+    """slices of a 32-bit input range on which 2^x is representable; half of them near the top of the fractional
+    range / top of the result range (where an error in the polynomial is largest)"""
+    lo, hi = tmin(T), tmax(T)
+    d = bits(T) - (1 if signed(T) else 0)
+    # x*2^E < d + E  <=>  a < (d+E) * 2^-E
+    amax = min(hi, ((d + E) << -E) - 1 if E < 0 else ((d + E) >> E) if E > 0 else d - 1)
+    amin = max(lo, (E << -E) if E < 0 else lo)        # below x = E the result is < one unit
+    if amax < amin:
+        return []
+    hmin, hmax = amin >> 8, amax >> 8
+    hs = {hmax, hmin, (hmax - 1) if hmax > hmin else hmax}
+    while len(hs) < min(count, hmax - hmin + 1):
+        hs.add(rng.randint(hmin, hmax))
+    out = []
+    for h in sorted(hs)[:max(count, 3)]:
+        k = mk_exp2("K%d" % (n0 + len(out)), T, E, slice_hi=h)
+        if k is not None:
+            out.append(k)
+    return out
 
 
 CONSTS = ["e", "log2e", "log10e", "pi", "inv_pi", "inv_sqrtpi", "ln2", "ln10", "sqrt2", "sqrt3", "inv_sqrt3", "egamma", "phi"]
@@ -129,7 +153,13 @@ def kernels(opts):
             for E in (-(d - 1), -12, -8, -4):
                 his = sorted({v >> 8 for v in range(tmin(T), tmax(T) + 1)})
                 for h in (his if opts.get("full16") else rng.sample(his, 24)):
-                    ks.append(mk_exp2("K%d" % len(ks), T, E, slice_hi=h))
+                    k = mk_exp2("K%d" % len(ks), T, E, slice_hi=h)
+                    if k is not None:
+                        ks.append(k)
+    # 32-bit reps: slices of 256 consecutive inputs (high 24 bits fixed per kernel, low 8 bits symbolic)
+    for T, Es in (("i32", (-30, -24, -16, -8, -1, 0)), ("u32", (-31, -16, -4, 0))):
+        for E in Es:
+            ks += exp2_slices32(len(ks), T, E, 2 if tier == "quick" else 24, rng)
     import mpmath as mp
     for cn in CONSTS:
         need = int(mp.floor(true_const(cn))).bit_length()
